@@ -184,8 +184,14 @@ func (e *Env) Build(a *APkt, o BuildOpts, now time.Time) ([]byte, error) {
 	if a.Fault == "srchost" {
 		m := netip.AddrFrom16(netip.MustParseAddr("::ffff:10.0.0.77").As16())
 		s.SrcAddrType, s.RawSrcAddr = slayers.T16Ip, m.AsSlice()
-	} else if err := s.SetSrcAddr(addr.HostIP(hostFor(a.Src, false))); err != nil {
-		return nil, err
+	} else {
+		src := hostFor(a.Src, false)
+		if r.Intn(3) == 0 { // every third packet comes from an IPv6 host
+			src = netip.MustParseAddr("2001:db8:" + map[bool]string{true: "a", false: "f"}[a.Src == "L"] + "::77:4d2e")
+		}
+		if err := s.SetSrcAddr(addr.HostIP(src)); err != nil {
+			return nil, err
+		}
 	}
 	l4t, l4 := l4Bytes(a.L4, o.Payload, r)
 	// extension headers are written by hand: NextHdr, ExtLen = 1 (8 bytes), one PadN option
@@ -279,15 +285,39 @@ func (e *Env) Build(a *APkt, o BuildOpts, now time.Time) ([]byte, error) {
 				w.Hops = append(w.Hops, WHop{In: h.ConsIngress, Eg: h.ConsEgress, Exp: h.ExpTime, Mac: h.Mac})
 			}
 			n := len(w.Hops)
+			// A wrong HVF is, in equal parts: a flipped bit; the right value for the other of the two
+			// last hop fields; the right value for a packet that differs in ONE input of the HVF
+			// (payload length, a byte of the source host address - the last one included -, source
+			// ISD-AS, packet id, timestamp): what an on-path party produces by altering the packet.
 			hvf := func(k int, good bool) []byte {
-				if !good && n >= 2 && r.Intn(2) == 0 {
-					// a wrong HVF that is the right one for the other of the two last hop fields
-					k = 2*n - 3 - k
-					good = true
-				}
-				v := EpicHVF(e.sigma(w, k, viaExt), uint8(s.SrcAddrType)&3, ts0, id, uint64(s.SrcIA),
-					s.RawSrcAddr, uint16(payloadLen))
+				sl, ts, pid, ia := uint8(s.SrcAddrType)&3, ts0, id, uint64(s.SrcIA)
+				host := append([]byte(nil), s.RawSrcAddr...)
+				pl := uint16(payloadLen)
+				flavour := 0
 				if !good {
+					flavour = 1 + r.Intn(3)
+				}
+				switch {
+				case flavour == 2 && n >= 2:
+					k = 2*n - 3 - k
+				case flavour == 3:
+					switch r.Intn(6) {
+					case 0:
+						pl += uint16(1 + r.Intn(40))
+					case 1:
+						pl -= uint16(1 + r.Intn(8))
+					case 2:
+						host[len(host)-1] ^= 1 << r.Intn(8)
+					case 3:
+						host[r.Intn(len(host))] ^= 0x10
+					case 4:
+						ia ^= 1 << r.Intn(48)
+					default:
+						pid[r.Intn(8)] ^= 4
+					}
+				}
+				v := EpicHVF(e.sigma(w, k, viaExt), sl, ts, pid, ia, host, pl)
+				if flavour == 1 || (flavour == 2 && n < 2) {
 					b := r.Intn(32)
 					v[b/8] ^= 1 << (b % 8)
 				}
